@@ -4,7 +4,7 @@ of the HTTP requests they send to nsqlookupd / nsqd (CreateTopicChannel, DeleteT
 DeleteChannel, Pause/UnPause/Empty Topic/Channel via actionHelper, TombstoneNodeForTopic,
 GetTopicProducers, nsqlookupdPOST, producersPOST). Core Lean only (linked into `drv_e7`).
 
-An upstream either answers every request (`up`) or fails every request. The lookups run in
+An upstream answers or fails all its GET requests (`up`) and, independently, all its POST requests (`postUp`). The lookups run in
 goroutines, so the order in which producers are collected is not fixed: `requests` lists the
 requests phase by phase and the harness compares them as a sorted multiset.
 -/
@@ -12,14 +12,16 @@ namespace Nsq.Model.AdminFanout
 
 structure Lookupd where
   addr : String
-  up : Bool
+  up : Bool                    -- answers GET requests
   producers : List String      -- HTTP addresses in its `/lookup?topic=` answer
+  postUp : Bool := up          -- answers POST requests (may differ: 404 / 500 on the command only)
 deriving Repr, DecidableEq
 
 structure Nsqd where
   addr : String
-  up : Bool
+  up : Bool                    -- answers GET requests
   hasTopic : Bool              -- its `/stats?topic=` answer lists the topic
+  postUp : Bool := up          -- answers POST requests
 deriving Repr, DecidableEq
 
 structure World where
@@ -146,7 +148,8 @@ deriving Repr, DecidableEq
 
 def reqFails (w : World) : Req → Bool
   | .get addr _ => !(w.lookupds.any (fun l => l.addr == addr && l.up) || nodeUp w addr)
-  | .post addr _ => !(w.lookupds.any (fun l => l.addr == addr && l.up) || nodeUp w addr)
+  | .post addr _ => !(w.lookupds.any (fun l => l.addr == addr && l.postUp) ||
+      w.nsqds.any (fun n => n.addr == addr && n.postUp))
 
 /-- What the `ClusterInfo` method returns: a non-partial error only when the producer lookup
 fails as a whole; an `ErrList` (partial) when any single request failed. -/
